@@ -431,7 +431,10 @@ fn consume_expr<'i>(
                             Rule::range_operator => 0,
                             Rule::integer => {
                                 pairs.next().unwrap(); // ..
-                                pair_start.as_str().parse().unwrap()
+                                match pair_start.as_str().parse() {
+                                    Ok(start) => start,
+                                    Err(_) => return Err(peek_index_overflow(&pair_start)),
+                                }
                             }
                             _ => unreachable!("peek start"),
                         };
@@ -440,7 +443,10 @@ fn consume_expr<'i>(
                             Rule::closing_brack => None,
                             Rule::integer => {
                                 pairs.next().unwrap(); // }
-                                Some(pair_end.as_str().parse().unwrap())
+                                match pair_end.as_str().parse() {
+                                    Ok(end) => Some(end),
+                                    Err(_) => return Err(peek_index_overflow(&pair_end)),
+                                }
                             }
                             _ => unreachable!("peek end"),
                         };
@@ -722,6 +728,15 @@ fn consume_expr<'i>(
     };
 
     pratt.map_primary(term).map_infix(infix).parse(pairs)
+}
+
+fn peek_index_overflow(pair: &Pair<'_, Rule>) -> Vec<Error<Rule>> {
+    vec![Error::new_from_span(
+        ErrorVariant::CustomError {
+            message: "number cannot overflow i32".to_owned(),
+        },
+        pair.as_span(),
+    )]
 }
 
 fn unescape(string: &str) -> Option<String> {
